@@ -50,6 +50,13 @@ class Func:
         return f"<func {self.row.get('name')}>"
 
 
+class StaticRef:
+    __slots__ = ("func", "cls")
+
+    def __init__(self, func, cls):
+        self.func, self.cls = func, cls
+
+
 class Bound:
     __slots__ = ("func", "this")
 
@@ -89,6 +96,13 @@ class Module:
 
     def __init__(self, unit):
         self.unit = unit
+
+
+class Namespace:
+    __slots__ = ("members",)
+
+    def __init__(self, members):
+        self.members = members
 
 
 class Builtin:
@@ -159,7 +173,8 @@ BODY_COLS = ("body", "then_body", "else_body", "init_body", "condition_prebody",
 
 EXC_NAMES = ("ValueError", "KeyError", "Exception", "Error", "RuntimeError", "TypeError", "RuntimeException", "Throwable")
 PY_CONSTS = {"True": True, "False": False, "None": None}
-JS_CONSTS = {"true": True, "false": False, "null": None, "undefined": None, "nil": None, "NULL": None, "TRUE": True, "FALSE": False}
+JS_CONSTS = {"true": True, "false": False, "null": None, "undefined": None, "nil": None, "NULL": None, "TRUE": True, "FALSE": False,
+             "True": True, "False": False, "None": None}      # lian folds constants with Python and emits Python spellings
 
 
 class VM:
@@ -170,12 +185,14 @@ class VM:
         self.budget = budget
         self.steps = 0
         self.outputs = []
+        self.raw_outputs = []
         self.activations = []          # (method stmt id, [stmt ids])
         self.opaque = []
         self.undeclared_writes = []
         self.record_events = record_events
         self.switches = set(switches)
         self.depth = 0
+        self._decl_seen = set()
         self.externals = {}
         self.family = {"python": "py", "javascript": "js", "typescript": "js", "java": "c", "c": "c", "go": "c",
                        "php": "php"}.get(lang, "py")
@@ -197,12 +214,24 @@ class VM:
             "try_stmt": self.op_try, "throw_stmt": self.op_throw, "type_cast_stmt": self.op_type_cast,
             "block_stmt": self.op_block,
         }
+        if "go-return-operation" in self.switches:
+            self.handlers["return"] = lambda u, r, f, sc: ("return", self.val(f, sc, r.get("target"), r) if r.get("target") not in (None, "") else None)
+        if "expression-stmt-rows" in self.switches:
+            self.handlers["expression_stmt"] = self.op_nop
+        if "go-struct-type-decl" in self.switches:
+            self.handlers["type_decl"] = self.op_go_type_decl
 
     # ------------------------------------------------------------------ builtins
     def _install_builtins(self):
         def out(*a):
             self.outputs.append(tuple(self.show(x) for x in a))
+            self.raw_outputs.append(a[0] if len(a) == 1 else tuple(a))
             return None
+
+        def printf(fmt, *a):
+            if not isinstance(fmt, str) or len(a) != 1:
+                raise VMOpaque("printf with other than one value")
+            return out(a[0])
         b = {"out": out, "len": lambda x: len(x), "abs": abs, "str": lambda x: self.to_str(x), "int": int,
              "min": min, "max": max, "bool": bool}
         b["range"] = lambda *a: list(range(*a))
@@ -213,6 +242,16 @@ class VM:
         for en in EXC_NAMES:
             self.externals[en] = Builtin(en, (lambda *a, _n=en: {"%exc": _n, "args": list(a)}))
         self.console = {"log": Builtin("console.log", out)}
+        outb = Builtin("out", out)
+        if self.family == "js":
+            self.externals["console"] = Namespace({"log": outb})
+        if self.lang == "java":
+            self.externals["System"] = Namespace({"out": Namespace({"println": outb})})
+        if self.lang == "go":
+            self.externals["fmt"] = Namespace({"Println": outb})
+        if self.lang == "c":
+            self.externals["printf"] = Builtin("printf", printf)
+            self.externals["puts"] = outb
 
     def show(self, v):
         if isinstance(v, bool) or v is None or isinstance(v, (int, str)):
@@ -292,6 +331,11 @@ class VM:
             return frame.cls
         s = self.find_scope(scope, name)
         if s is None:
+            owner = frame.cls if isinstance(frame.cls, Class) else (frame.this.cls if isinstance(frame.this, Obj) else None)
+            if owner is not None:
+                m = owner.find(name)
+                if m is not None:
+                    return Bound(m, frame.this) if isinstance(frame.this, Obj) else StaticRef(m, owner)
             if name in self.externals:
                 return self.externals[name]
             raise VMError(f"read of unbound name {name!r} at stmt {stmt.get('stmt_id')}")
@@ -310,7 +354,7 @@ class VM:
         s = self.find_scope(scope, name)
         if s is None:
             s = frame.root
-            if not name.startswith("%"):
+            if not name.startswith("%") and name != "_":
                 self.undeclared_writes.append((stmt.get("stmt_id"), name))
         s.vars[name] = value
         s.defs[name] = stmt.get("stmt_id")
@@ -349,16 +393,53 @@ class VM:
         f = s.vars[entry_name]
         return self.call_value(f, list(args), {}, {"stmt_id": -1})
 
+    def run_program(self, unit):
+        """Run a whole program by the language's entry convention (DESIGN Appendix B)."""
+        self.init_unit(unit)
+        if self.lang == "java":
+            for r in unit.top:
+                if r.get("operation") == "class_decl":
+                    cls = unit.globals.vars.get(r.get("name"))
+                    if isinstance(cls, Class) and "main" in cls.methods:
+                        return self.call_func(cls.methods["main"], [[]], {}, UNBOUND, {"stmt_id": -1}, cls=cls)
+            raise VMError("no class with a main method")
+        if self.lang in ("go", "c"):
+            return self.run_entry(unit, "main", [])
+        return None
+
     def exec_block(self, unit, bid, frame, scope, new_scope=True):
         rows = unit.blocks.get(_int(bid))
         if rows is None:
             raise VMError(f"body {bid} names no block")
         inner = Scope(scope, frame) if new_scope else scope
+        if "declaration-after-first-assignment" in self.switches:
+            rows = self._hoist_late_decls(rows)
         for r in rows:
             sig = self.exec_stmt(unit, r, frame, inner)
             if sig is not None:
                 return sig
         return None
+
+    def _hoist_late_decls(self, rows):
+        """compensation 'declaration-after-first-assignment': a variable_decl emitted after the first statement of the
+        same block that assigns the variable is moved in front of that statement (what a repaired lowering emits)."""
+        out = list(rows)
+        j = 0
+        while j < len(out):
+            r = out[j]
+            if r.get("operation") == "variable_decl":
+                name = r.get("name")
+                first = None
+                for i in range(j):
+                    if out[i].get("operation") == "variable_decl" and out[i].get("name") == name:
+                        first = None
+                        break
+                    if first is None and out[i].get("target") == name:
+                        first = i
+                if first is not None:
+                    out.insert(first, out.pop(j))
+            j += 1
+        return out
 
     def exec_stmt(self, unit, row, frame, scope, count=True):
         op = row.get("operation")
@@ -465,6 +546,8 @@ class VM:
             return self.call_func(f, pos, named, UNBOUND, call_stmt)
         if isinstance(f, Bound):
             return self.call_func(f.func, pos, named, f.this, call_stmt)
+        if isinstance(f, StaticRef):
+            return self.call_func(f.func, pos, named, UNBOUND, call_stmt, cls=f.cls)
         if isinstance(f, Class):
             return self.instantiate(f, pos, named, call_stmt)
         if isinstance(f, Builtin):
@@ -479,6 +562,11 @@ class VM:
     def decode_args(self, frame, scope, row):
         pa = row.get("positional_args")
         na = row.get("named_args")
+        if pa is None and row.get("args") is not None:
+            if "args-column" in self.switches:
+                pa = row.get("args")
+            else:
+                raise VMOpaque("call arguments in column 'args' (the analyses read positional_args)")
         if row.get("packed_positional_args") is not None or row.get("packed_named_args") is not None:
             raise VMOpaque("packed arguments")
         pos, named = [], {}
@@ -542,6 +630,10 @@ class VM:
             if m is not None:
                 return m
             raise VMError(f"class {recv.name} has no member {field!r}")
+        if isinstance(recv, Namespace):
+            if field in recv.members:
+                return recv.members[field]
+            raise VMOpaque(f"external namespace has no member {field!r}")
         if isinstance(recv, Module):
             self.init_unit(recv.unit)
             s = recv.unit.globals
@@ -559,12 +651,6 @@ class VM:
         raise VMOpaque(f"field {field!r} of {type(recv).__name__}")
 
     def op_object_call(self, unit, row, frame, scope):
-        if row.get("receiver_object") == "console" and self.family == "js" and self.find_scope(scope, "console") is None:
-            pos, named = self.decode_args(frame, scope, row)
-            ret = self.call_value(self.console.get(row.get("field")) or self.console["log"], pos, named, row)
-            if row.get("target") is not None:
-                self.write(frame, scope, row.get("target"), ret, row)
-            return None
         recv = self.val(frame, scope, row.get("receiver_object"), row)
         field = row.get("field")
         pos, named = self.decode_args(frame, scope, row)
@@ -649,9 +735,22 @@ class VM:
 
     def op_variable_decl(self, unit, row, frame, scope):
         # hoisting languages (Python): a declaration belongs to the function, whatever block the row sits in
-        if self.family == "py" and frame.root is not None:
+        if self.family in ("py", "php") and frame.root is not None:
             scope = frame.root
-        self.declare(scope, row.get("name"))
+        name = row.get("name")
+        if "redeclaration-of-visible-variable" in self.switches and frame.root is not None:
+            # compensation: a second variable_decl for a name that the same function (or, for top-level code, the unit)
+            # already declares — the frontend's declaration pass lost track of the enclosing block's declaration
+            s_ = self.find_scope(scope, name)
+            if s_ is not None and s_ is not scope and (s_.frame is frame or (s_.frame is None and frame.name == "%unit_init")):
+                return None
+        self.declare(scope, name)
+        if self.family == "c" and isinstance(row.get("data_type"), str):
+            # C-family value types: `struct T v;` gives a usable record at once
+            dt = row.get("data_type").replace("struct ", "").strip()
+            s_ = self.find_scope(scope, dt)
+            if s_ is not None and isinstance(s_.vars.get(dt), Class):
+                (self.find_scope(scope, name) or scope).vars[name] = Obj(s_.vars[dt], row.get("stmt_id"))
 
     def truthy(self, v):
         if isinstance(v, (Obj, Func, Class, Bound, Builtin, Module)):
@@ -768,6 +867,9 @@ class VM:
         raise VMOpaque(f"unary operator {op!r}")
 
     def op_assign(self, unit, row, frame, scope):
+        if row.get("operand") is None and row.get("operator") is None and self.family == "c":
+            self.write(frame, scope, row.get("target"), [], row)       # `int a[3];` — a fresh container
+            return None
         op = row.get("operator")
         a = self.val(frame, scope, row.get("operand"), row)
         if op is None or op == "" or op == "=":
@@ -839,6 +941,10 @@ class VM:
         raise VMError(f"element load from {type(arr).__name__}")
 
     def op_array_read(self, unit, row, frame, scope):
+        if row.get("array") is None and row.get("receiver_object") is not None:
+            if "array-read-receiver-object-column" not in self.switches:
+                raise VMOpaque("array_read names the array in column 'receiver_object' (the analyses read 'array')")
+            row = dict(row, array=row.get("receiver_object"))
         arr = self.val(frame, scope, row.get("array"), row)
         idx = self.val(frame, scope, row.get("index"), row)
         self.write(frame, scope, row.get("target"), self.load_elem(arr, idx, row), row)
@@ -885,6 +991,10 @@ class VM:
             recv.statics[field] = src
         elif isinstance(recv, dict) and self.family in ("js", "php"):
             recv[field] = src
+        elif isinstance(recv, list) and isinstance(field, str) and field.isdigit():
+            if "array-literal-elements-as-fields" not in self.switches:
+                raise VMOpaque("array literal element stored with field_write (element reads use array_read)")
+            self.store_elem(recv, int(field), src, row)
         else:
             raise VMError(f"field_write on {type(recv).__name__}")
 
@@ -942,7 +1052,10 @@ class VM:
     def op_while(self, unit, row, frame, scope):
         cond = row.get("condition")
         body = row.get("body")
+        pre = row.get("condition_prebody")
         while True:
+            if pre is not None:
+                self.exec_block(unit, pre, frame, scope, new_scope=False)
             c = self.val(frame, scope, cond, row)
             if not self.truthy(c):
                 if row.get("else_body") is not None:
@@ -1227,6 +1340,11 @@ class VM:
         if sinit is not None:
             self.call_func(sinit, [], {}, UNBOUND, row, cls=cls)
 
+    def op_go_type_decl(self, unit, row, frame, scope):
+        cls = Class(row, row.get("name"), unit)
+        self.declare(scope, cls.name)
+        (self.find_scope(scope, cls.name) or scope).vars[cls.name] = cls
+
     def op_global(self, unit, row, frame, scope):
         name = row.get("name")
         root = frame.root
@@ -1268,6 +1386,8 @@ class VM:
         alias = row.get("alias") or name
         u = self.unit_by_module(name.split(".")[-1]) if isinstance(name, str) else None
         if u is None:
+            if isinstance(name, str) and name.strip('"') in self.externals:
+                return None
             raise VMOpaque(f"import of unknown module {name!r}")
         self.init_unit(u)
         self.declare(scope, alias)
@@ -1296,6 +1416,7 @@ class VM:
     def op_echo(self, unit, row, frame, scope):
         v = self.val(frame, scope, row.get("name"), row)
         self.outputs.append((self.show(v),))
+        self.raw_outputs.append(v)
 
 
 def load_units(rows, lang_of_unit=None, path_of_unit=None, default_lang="python"):
